@@ -777,7 +777,7 @@ func runSchedule(c *schedCase, idx int, seed int, wait time.Duration) outcome {
 	for _, ch := range []chan struct{}{readerDone, peerDone} {
 		select {
 		case <-ch:
-		case <-time.After(stallTimeout + 3*time.Second): // the reader's close echo waits up to 1 s for the lock
+		case <-time.After(stallTimeout): // (every call is back: the lock is free, nothing holds the reader up)
 			s.stalled = append(s.stalled, "reader/peer")
 		}
 	}
@@ -935,7 +935,7 @@ func (s *session) evaluate(idx int, payloads [][]byte, got []delivered, xClosed 
 	if len(s.stalled) > 0 {
 		switch stallsSeen++; {
 		case stallsSeen >= 3:
-			stallTimeout = 300 * time.Millisecond
+			stallTimeout = 100 * time.Millisecond
 		case stallsSeen >= 1:
 			stallTimeout = 5 * time.Second
 		}
